@@ -57,7 +57,7 @@ Fixpoint collect_loop (fuel : nat) (r : reader) (e : Z) (textKind : Z) (escapes 
         let '(ok, r1) := next r in
         if negb ok then (acc, plainStart) else
         if jumped r1 then
-          let acc := if plainStart <? r_prev r1 then acc ++ [mkI textKind plainStart (r_prev r1 + 1)] else acc in
+          let acc := if plainStart <=? r_prev r1 then acc ++ [mkI textKind plainStart (r_prev r1 + 1)] else acc in
           collect_loop f r1 e textKind escapes (r_pos r1) acc
         else collect_loop f r1 e textKind escapes plainStart acc in
       if escapes && (okind cn =? UnparsedKind) then
